@@ -10,6 +10,7 @@
 package main
 
 import (
+	stdbytes "bytes"
 	"encoding/hex"
 	"flag"
 	"fmt"
@@ -27,6 +28,7 @@ import (
 	"github.com/LiskHQ/lisk-engine/pkg/blockchain"
 	"github.com/LiskHQ/lisk-engine/pkg/collection/bytes"
 	"github.com/LiskHQ/lisk-engine/pkg/consensus/liskbft"
+	"github.com/LiskHQ/lisk-engine/pkg/crypto"
 	"github.com/LiskHQ/lisk-engine/pkg/db/diffdb"
 
 	"verifharness/internal/exh"
@@ -36,16 +38,17 @@ import (
 // ---- sync-counting file system over strict MemFS ----
 type cfs struct {
 	vfs.FS
-	mem       *vfs.MemFS
-	mu        sync.Mutex
-	syncs     int64 // syncs seen since arm()
-	walSyncs  int64 // syncs of a WAL file holding unsynced writes (= durable commits) since arm()
-	firstWal  int64 // index (1-based, among syncs) of the first / last such sync, 0 if none
-	lastWal   int64
-	newestWal *cfile
-	limit     int64 // -1: unlimited; otherwise syncs beyond this count are dropped (SetIgnoreSyncs)
-	armed     bool
-	cutoff    bool
+	mem           *vfs.MemFS
+	mu            sync.Mutex
+	syncs         int64 // syncs seen since arm()
+	walSyncs      int64 // syncs of a WAL file holding unsynced writes (= durable commits) since arm()
+	firstWal      int64 // index (1-based, among syncs) of the first / last such sync, 0 if none
+	lastWal       int64
+	newestWal     *cfile
+	newestWalName string
+	limit         int64 // -1: unlimited; otherwise syncs beyond this count are dropped (SetIgnoreSyncs)
+	armed         bool
+	cutoff        bool
 }
 
 type cfile struct {
@@ -99,6 +102,7 @@ func (c *cfs) wrapNew(name string, f vfs.File, err error) (vfs.File, error) {
 	if err == nil && strings.HasSuffix(name, ".log") {
 		c.mu.Lock()
 		c.newestWal = w.(*cfile)
+		c.newestWalName = name
 		c.mu.Unlock()
 	}
 	return w, err
@@ -198,11 +202,14 @@ func (c *cfs) disarm() {
 	c.mu.Unlock()
 }
 
+var emptyHash = crypto.Hash([]byte{})
+
 // ---- projection of the DB onto the keys of coq/Chain/Crash.v ----
 type Ent struct {
-	C string `json:"c"` // header | idx | body | events | temp | fin | tipmark | state | diff
-	A string `json:"a"` // id / state key (hex) or height (decimal)
-	V string `json:"v"` // height (decimal) for header/fin/tipmark, id hex for idx, digest of the value otherwise
+	C string `json:"c"`           // header | idx | body | events | temp | fin | tipmark | state | diff
+	A string `json:"a"`           // id / state key (hex) or height (decimal)
+	V string `json:"v"`           // height (decimal) for header/fin/tipmark, id hex for idx, digest of the value otherwise
+	P bool   `json:"p,omitempty"` // header entries: the block has a payload (transaction root or asset root not the empty hash)
 }
 
 func project(n *exh.Node) []Ent {
@@ -215,14 +222,16 @@ func project(n *exh.Node) []Ent {
 		case 3:
 			h := &blockchain.BlockHeader{}
 			hv := "undecodable"
+			payload := false
 			if err := h.Decode(v); err == nil {
 				hv = fmt.Sprint(h.Height)
+				payload = !stdbytes.Equal(h.TransactionRoot, emptyHash) || !stdbytes.Equal(h.AssetRoot, emptyHash)
 			}
-			out = append(out, Ent{"header", hex.EncodeToString(k[1:]), hv})
+			out = append(out, Ent{C: "header", A: hex.EncodeToString(k[1:]), V: hv, P: payload})
 		case 4:
-			out = append(out, Ent{"idx", fmt.Sprint(bytes.ToUint32(k[1:])), hex.EncodeToString(v)})
+			out = append(out, Ent{C: "idx", A: fmt.Sprint(bytes.ToUint32(k[1:])), V: hex.EncodeToString(v)})
 		case 5, 8:
-			e := Ent{"body", hex.EncodeToString(k[1:]), "1"}
+			e := Ent{C: "body", A: hex.EncodeToString(k[1:]), V: "1"}
 			dup := false
 			for _, x := range out {
 				if x == e {
@@ -235,17 +244,17 @@ func project(n *exh.Node) []Ent {
 		case 6:
 			// transactions by their own ID: covered by the whole-dump digests
 		case 7:
-			out = append(out, Ent{"temp", fmt.Sprint(bytes.ToUint32(k[1:])), dg})
+			out = append(out, Ent{C: "temp", A: fmt.Sprint(bytes.ToUint32(k[1:])), V: dg})
 		case 9:
-			out = append(out, Ent{"events", fmt.Sprint(bytes.ToUint32(k[1:])), dg})
+			out = append(out, Ent{C: "events", A: fmt.Sprint(bytes.ToUint32(k[1:])), V: dg})
 		case 27:
-			out = append(out, Ent{"fin", "0", fmt.Sprint(bytes.ToUint32(v))})
+			out = append(out, Ent{C: "fin", A: "0", V: fmt.Sprint(bytes.ToUint32(v))})
 		case 10:
-			out = append(out, Ent{"state", hex.EncodeToString(k[1:]), dg})
+			out = append(out, Ent{C: "state", A: hex.EncodeToString(k[1:]), V: dg})
 		case 51:
-			out = append(out, Ent{"diff", fmt.Sprint(bytes.ToUint32(k[1:])), dg})
+			out = append(out, Ent{C: "diff", A: fmt.Sprint(bytes.ToUint32(k[1:])), V: dg})
 		default:
-			out = append(out, Ent{"unknown", kv.K, dg})
+			out = append(out, Ent{C: "unknown", A: kv.K, V: dg})
 		}
 	}
 	// the height of the newest block recorded in the BFT votes (0 right after genesis: empty window)
@@ -259,7 +268,7 @@ func project(n *exh.Node) []Ent {
 		if len(infos) > 0 {
 			m = infos[0].Height
 		}
-		out = append(out, Ent{"tipmark", "0", fmt.Sprint(m)})
+		out = append(out, Ent{C: "tipmark", A: "0", V: fmt.Sprint(m)})
 	}()
 	return out
 }
@@ -312,10 +321,16 @@ type StepRec struct {
 	Commits  int64  `json:"commits"` // commit records appended to the write-ahead log during the step (= durable writes)
 	Bytes    int    `json:"payload_bytes"`
 	FinJump  uint32 `json:"fin_jump"`
-	Before   []Ent  `json:"before"`
-	After    []Ent  `json:"after"`
-	DBefore  string `json:"dg_before"`
-	DAfter   string `json:"dg_after"`
+	// inputs from which the check derives the EXPECTED batch independently of the dumps
+	P          uint32 `json:"p"`           // maxHeightPrecommited of the post-state (liskbft on a scratch staged store)
+	Keep       int    `json:"keep"`        // keepEventsForHeights
+	NEvents    int    `json:"nevents"`     // events the scripted application produces for this block
+	HasBody    bool   `json:"has_body"`    // the block has transactions or assets
+	TempDigest string `json:"temp_digest"` // digest of the encoded block (value of the temp entry when it is saved)
+	Before     []Ent  `json:"before"`
+	After      []Ent  `json:"after"`
+	DBefore    string `json:"dg_before"`
+	DAfter     string `json:"dg_after"`
 }
 
 type CrashRec struct {
@@ -327,6 +342,7 @@ type CrashRec struct {
 	ID         string   `json:"id"`
 	H          uint32   `json:"h"`
 	RT         bool     `json:"rt"`
+	Torn       int      `json:"torn"`      // > 0: additionally this many UNSYNCED bytes at the tail of the write-ahead log survived
 	J          int64    `json:"j"`         // syncs of the step that reached the disk
 	Syncs      int64    `json:"syncs"`     // syncs the step issued in this run
 	FirstWal   int64    `json:"first_wal"` // position of the first / last WAL commit sync among them (0: none)
@@ -355,6 +371,9 @@ func runStep(n *exh.Node, s sstep) exh.Result {
 		return n.ProcessValidated(s.block, false)
 	case "restore":
 		return n.ProcessValidated(s.block, true)
+	case "cleartemp":
+		n.Chain.DataAccess().ClearTempBlocks()
+		return exh.Result{}
 	default:
 		return n.DeleteBlock(n.Tip(), s.save)
 	}
@@ -462,6 +481,10 @@ func (p *planner) next(t int) sstep {
 		return p.addStep(exh.Build{By: by}, false)
 	}
 	c := r.Intn(100)
+	if tb, err := n.Chain.DataAccess().GetTempBlocks(); err == nil && len(tb) > 0 && len(p.pending) == 0 && c < 50 {
+		// a finished (or abandoned) sync: DataAccess.ClearTempBlocks, its own durable write
+		return sstep{kind: "cleartemp", script: &exh.Script{}}
+	}
 	switch {
 	case c < 60 || tip.Height == 0:
 		bo := exh.Build{}
@@ -568,7 +591,7 @@ func main() {
 				tip = n.Tip().Header
 				fin0, _ = n.Finalized()
 			}
-			rec := StepRec{K: "step", Sc: sc, Family: family, T: t, Op: s.kind, Expect: s.kind == "add" || s.kind == "del" || s.kind == "restore" || s.kind == "genesis",
+			rec := StepRec{K: "step", Sc: sc, Family: family, T: t, Op: s.kind, Expect: s.kind == "add" || s.kind == "del" || s.kind == "restore" || s.kind == "genesis" || s.kind == "cleartemp",
 				Save: s.save, RT: s.kind == "restore", Before: project(n), DBefore: canonDigest(n)}
 			if s.block != nil {
 				rec.ID, rec.H = hex.EncodeToString(s.block.Header.ID), s.block.Header.Height
@@ -581,12 +604,31 @@ func main() {
 			if s.kind == "genesis" {
 				opt.GenesisTime = n.Opt.GenesisTime
 			}
+			rec.Keep = n.Opt.KeepEvents
+			if s.block != nil && s.kind != "genesis" {
+				rec.NEvents = len(s.script.AllEvents(len(s.block.Transactions)))
+				rec.HasBody = len(s.block.Transactions) > 0 || len(s.block.Assets) > 0
+				func() {
+					defer func() { recover() }()
+					store := n.Exec.VerifC03ConsensusStore()
+					if err := n.Exec.BFTBeforeTransactionsExecute(s.block.Header.Readonly(), store); err == nil {
+						_, rec.P, _, _ = n.Exec.GetBFTHeights(store)
+					}
+				}()
+			} else if s.kind == "del" || s.kind == "del_refused" {
+				tb := n.Tip()
+				rec.HasBody = len(tb.Transactions) > 0 || len(tb.Assets) > 0
+				rec.TempDigest = exh.Digest([]exh.KV{{K: "", V: hex.EncodeToString(tb.Encode())}})[:12]
+			}
 			dumpsA = append(dumpsA, canonDump(n))
 			wal0 := walRecords(fsA.mem)
 			fsA.arm(-1)
 			res := runStep(n, s)
 			fsA.disarm()
 			rec.Commits = commitsBetween(wal0, walRecords(fsA.mem))
+			if os.Getenv("C13DBG") != "" && res.Err != nil {
+				fmt.Fprintln(os.Stderr, "DBG", sc, t, s.kind, res.Err)
+			}
 			rec.Syncs, rec.WalSyncs, rec.ImplOK, rec.Class = fsA.syncs, fsA.walSyncs, res.OK(), exh.ErrClass(res)
 			if s.kind == "restore" && !res.OK() {
 				rec.Expect = false // a restored block whose parent is gone is rejected; nothing may change
@@ -605,7 +647,19 @@ func main() {
 			if s.quiet {
 				continue
 			}
+			tornDone := false
 			for j := int64(0); ; j++ {
+				torn := false
+				if j == 0 && !tornDone && recs[t].Commits > 0 {
+					// extra crash point: nothing of the step was synced, but a random prefix of the unsynced bytes at the tail of
+					// the write-ahead log reached the disk anyway (a torn commit record)
+					torn, tornDone = true, true
+					j = -1
+				}
+				limit := j
+				if torn {
+					limit = 0
+				}
 				fsB := newCFS()
 				optB := opt
 				optB.FS = fsB
@@ -619,7 +673,7 @@ func main() {
 				if canonDigest(nb) != recs[t].DBefore {
 					panic(fmt.Sprintf("scenario %d: replay diverged before step %d: %v", sc, t, exh.DiffKeys(canonDump(nb), dumpsA[t])))
 				}
-				fsB.arm(j)
+				fsB.arm(limit)
 				runStep(nb, s)
 				// the process dies here: whatever was not synced is lost
 				fsB.mu.Lock()
@@ -630,10 +684,41 @@ func main() {
 					fsB.mem.SetIgnoreSyncs(true)
 				}
 				fsB.disarm()
+				var full []byte
+				walName := fsB.newestWalName
+				if torn && walName != "" {
+					if f, err := fsB.mem.Open(walName); err == nil {
+						full, _ = io.ReadAll(f)
+						_ = f.Close()
+					}
+				}
 				_ = nb.DB.Close()
 				fsB.mem.ResetToSyncedState()
 				fsB.mem.SetIgnoreSyncs(false)
-				cr := CrashRec{K: "crash", Sc: sc, Family: family, T: t, Op: s.kind, ID: recs[t].ID, H: recs[t].H, RT: recs[t].RT, J: j,
+				tornBytes := 0
+				if torn {
+					if f, err := fsB.mem.Open(walName); err == nil {
+						syn, _ := io.ReadAll(f)
+						_ = f.Close()
+						if len(full) > len(syn)+1 {
+							tornBytes = 1 + r.Intn(len(full)-len(syn)-1)
+							if w, err := fsB.mem.Create(walName); err == nil {
+								_, _ = w.Write(full[:len(syn)+tornBytes])
+								_ = w.Sync()
+								_ = w.Close()
+								if dd, err := fsB.mem.OpenDir("db"); err == nil {
+									_ = dd.Sync()
+									_ = dd.Close()
+								}
+							}
+						}
+					}
+					if tornBytes == 0 {
+						continue // the log was created inside the step (not durable) or holds nothing unsynced: no torn variant
+					}
+					j = 0
+				}
+				cr := CrashRec{K: "crash", Sc: sc, Family: family, T: t, Op: s.kind, ID: recs[t].ID, H: recs[t].H, RT: recs[t].RT, J: j, Torn: tornBytes,
 					Syncs: total, FirstWal: firstWal, LastWal: lastWal, Before: recs[t].Before, After: recs[t].After}
 				optR := optB
 				func() {
@@ -675,6 +760,10 @@ func main() {
 					}
 				}()
 				o.Put(cr)
+				if torn {
+					j = -1 // the ordinary enumeration starts at 0 next
+					continue
+				}
 				if j >= total {
 					break
 				}
